@@ -35,6 +35,7 @@ type Eng struct {
 	funcs map[string]*ssa.Function
 	obls  []*Obl
 	errs  []string
+	repo  string
 }
 
 func funcKey(fn *ssa.Function) string {
@@ -496,7 +497,7 @@ func main() {
 	}
 	prog, spkgs := ssautil.AllPackages(pkgs, ssa.BuilderMode(0))
 	prog.Build()
-	e := &Eng{prog: prog, pkg: spkgs[0], fset: pkgs[0].Fset, funcs: map[string]*ssa.Function{}}
+	e := &Eng{prog: prog, pkg: spkgs[0], fset: pkgs[0].Fset, funcs: map[string]*ssa.Function{}, repo: *repo}
 	var addFn func(fn *ssa.Function)
 	addFn = func(fn *ssa.Function) {
 		e.funcs[funcKey(fn)] = fn
